@@ -715,11 +715,20 @@ static void check_outcome(cfg_t *ctx, int act_kind, int act_state, struct pstate
 		V_ASSERT(*ps->opt != NULL && (*ps->opt)->type == CFGT_STR && strcmp((*ps->opt)->name, vin_tok) == 0, "[C01] a free-form key creates a string option of that name");
 		V_ASSERT(cfg_getopt_leaf(ctx, vin_tok) == *ps->opt, "[C01] the created key is part of the section");
 #else
+#ifdef PATHNAME
+		if (x.state != 10) {
+			/* "c|X": the option of that name inside the one instance of section "c" */
+			cfg_t *csec = root_opts[7].values[0]->section;
+
+			V_ASSERT(*ps->opt != NULL && *ps->opt == &csec->opts[(vin_tok[2] | 0x20) == 'a' ? 0 : 1], "[C01] a path key selects the option it addresses inside the section");
+		}
+#else
 		if (x.state != 10) {
 			int idx = ref_lookup(vin_tok, (ctx->flags & CFGF_NOCASE) != 0);
 
 			V_ASSERT(*ps->opt == &root_opts[idx], "[C01] a name selects the declared option of that name");
 		}
+#endif
 #endif
 	}
 #if KIND != K_SECKV
